@@ -372,6 +372,11 @@ def run(ck, fx, cg, tier, feeny=False, rule="R9.table"):
     from . import shared as _sh
     for cname, okc, whyc in _sh.ast_constructors(fx, only={"operation", "call_operator", "call_method"}):
         ck.ob("R9.executed", "parser|AST::%s" % cname, okc, "src/parser/mod.rs", whyc)
+    # … and it is executed as *that* operation: an arm of the compiler compiles its own children, never a part of one —
+    # `if e != null` compiled as "branch on e" (the comparison by-passed because Branch tests for null-ness anyway) lets
+    # truthiness answer where the table says `false != null`. These are C12's R12.place obligations.
+    _sh.presuppose(ck, fx, cg, "C12", lambda o: o["rule"] == "R12.place", "R9.executed",
+                   "an operator application is compiled where it stands, never by-passed (C12 R12.place)", floor=20)
     # "any other combination fails the program": the Err a built-in raises has to reach the process' exit status —
     # C10's propagation obligations on the path from the dispatch tables to `main` (no `.ok()`, `unwrap_or_else(print)`,
     # swallowed Result; no success exit after a failure), evaluated as one presupposition
